@@ -63,6 +63,8 @@ structure Env where
   keyOf : String → Option String
   sign : String → VCBody → String
   verify : VC → Bool
+  /-- the injected `Sign` returns an error (key store outage) although `ResolveKey` worked -/
+  signFails : Bool := false
 
 structure PageRow where          -- table status_list (credentialIssuerRecord); `lock` = row lock owner (thread id)
   id : Url
@@ -148,6 +150,7 @@ def listBody (E : Env) (now : Nat) (row : PageRow) (bits : Bits) : VCBody :=
 def updateCredential (E : Env) (now : Nat) (row : PageRow) (revIdxs : List Nat) (kid : String) : Res (VC × CredRec) :=
   match setAll (newBits E.lenBytes) revIdxs with
   | .ok bits =>
+    if E.signFails then .err "sign" else   -- `cs.buildAndSignVC` error: returned to the caller, whose transaction rolls back
     let body := listBody E now row bits
     let vc : VC := { body := body, proof := some (E.sign kid body) }
     .ok (vc, { id := row.id, purpose := "revocation", bits := bits, createdAt := now,
